@@ -48,6 +48,10 @@ theorem angleFilter_iff (a m : ℝ) :
     · left; exact h
     · right; linarith
 
+/-- the same, stated about the REGENERATED test -/
+theorem angle_filter_flip_regenerated (a m : ℝ) : GenRs.angle_filter (Real.pi - a) m = GenRs.angle_filter a m := by
+  rw [angle_filter_eq, angle_filter_eq]; exact angleFilter_flip a m
+
 example : angleFilter (3 : ℝ) 2 = true := by
   rw [angleFilter_iff]; right
   have := Real.pi_le_four
